@@ -103,9 +103,9 @@ theorem fmul_double {f : Fmt} (h : FOK f) {r : Nat} (hr : 2 ≤ r) (hrp : r < 2 
   omega
 
 /-- **the fraction loop terminates within its fuel** -/
-theorem fracLoop_total {f : Fmt} (h : FOK f) {r : Nat} (hr : 2 ≤ r) (hr36 : r ≤ 36) (hrp : r < 2 * 2 ^ (f.p - 1)) :
+theorem fracLoop_total (cf : Bool) {f : Fmt} (h : FOK f) {r : Nat} (hr : 2 ≤ r) (hr36 : r ≤ 36) (hrp : r < 2 * 2 ^ (f.p - 1)) :
     ∀ (fuel fraction delta : Nat) (acc : List Nat), fraction ≤ one f → delta < one f →
-      unit f ≤ RoundNE.ival f delta * 2 ^ fuel → ∃ x, fracLoop f r (ofNat f r) fuel fraction delta acc = .ok x
+      unit f ≤ RoundNE.ival f delta * 2 ^ fuel → ∃ x, fracLoop cf f r (ofNat f r) fuel fraction delta acc = .ok x
   | 0, _, delta, _, _, hd, hu => by
     have := (lt_one_iff h).mp hd
     simp at hu; omega
@@ -119,7 +119,7 @@ theorem fracLoop_total {f : Fmt} (h : FOK f) {r : Nat} (hr : 2 ≤ r) (hr36 : r 
     · split
       · exact ⟨_, rfl⟩
       · rename_i hnge
-        refine fracLoop_total h hr hr36 hrp fuel _ _ _ (Nat.le_of_lt hlt) (Nat.lt_trans (Nat.lt_of_not_le hnge) hlt) ?_
+        refine fracLoop_total cf h hr hr36 hrp fuel _ _ _ (Nat.le_of_lt hlt) (Nat.lt_trans (Nat.lt_of_not_le hnge) hlt) ?_
         calc unit f ≤ RoundNE.ival f delta * 2 ^ (fuel + 1) := hu
           _ = 2 * RoundNE.ival f delta * 2 ^ fuel := by rw [Nat.pow_succ]; ac_rfl
           _ ≤ _ := Nat.mul_le_mul_right _ hdbl
@@ -140,8 +140,8 @@ theorem deltaOf_pos (f : Fmt) (bits : Nat) : 1 ≤ deltaOf f bits := by
   split <;> omega
 
 /-- **fuel adequacy of the fraction loop**: for every finite pattern the fraction part of `write_float` does not PANIC -/
-theorem genFraction_total {f : Fmt} (h : FOK f) (hL : L f ≤ halfSize) {r : Nat} (hr : 2 ≤ r) (hr36 : r ≤ 36)
-    (hrp : r < 2 * 2 ^ (f.p - 1)) {bits : Nat} (hb : bits < f.infBits) : ∃ x, genFraction f r bits = .ok x := by
+theorem genFraction_total (cf : Bool) {f : Fmt} (h : FOK f) (hL : L f ≤ halfSize) {r : Nat} (hr : 2 ≤ r) (hr36 : r ≤ 36)
+    (hrp : r < 2 * 2 ^ (f.p - 1)) {bits : Nat} (hb : bits < f.infBits) : ∃ x, genFraction cf f r bits = .ok x := by
   unfold genFraction
   dsimp only
   split
@@ -150,7 +150,7 @@ theorem genFraction_total {f : Fmt} (h : FOK f) (hL : L f ≤ halfSize) {r : Nat
       rw [lt_one_iff h, fsub_ffloor_exact h.wf hb]; exact Nat.mod_lt _ (unit_pos f)
     have hd1 : 1 ≤ RoundNE.ival f (deltaOf f bits) := by
       rw [← ival_one_pattern h.wf]; exact ival_mono f (deltaOf_pos f bits)
-    obtain ⟨x, hx⟩ := fracLoop_total h hr hr36 hrp halfSize _ _ [] (Nat.le_of_lt hfr) (Nat.lt_trans hgt hfr) (by
+    obtain ⟨x, hx⟩ := fracLoop_total cf h hr hr36 hrp halfSize _ _ [] (Nat.le_of_lt hfr) (Nat.lt_trans hgt hfr) (by
       calc unit f = 2 ^ L f := unit_eq f
         _ ≤ 2 ^ halfSize := Nat.pow_le_pow_right (by decide) hL
         _ ≤ RoundNE.ival f (deltaOf f bits) * 2 ^ halfSize := Nat.le_mul_of_pos_left _ hd1)
